@@ -304,6 +304,13 @@ class Ctx:
                 cfgprog.regenerate()
             except Exception as e:  # the singleton code is no longer in a form the event language expresses
                 self.broken_obligation(f'translator (configuration singleton): {type(e).__name__}: {e}')
+        if 'AeicModel.Generated.MergeProg' in deps:
+            try:
+                from . import mergeprog
+
+                mergeprog.regenerate()
+            except Exception as e:  # `merge` is no longer in a form the effect language expresses
+                self.broken_obligation(f'translator (merge effect program): {type(e).__name__}: {e}')
         if 'AeicModel.Generated.Kernels' in deps:
             try:
                 from . import pykern
